@@ -75,6 +75,7 @@ def decodeCall (c : Bytes) : Option Call :=
     | 3 =>
       if (utf8 payload).2 != .complete then none
       else some (match fits .arr with | some v => .push v payload | none => .nop)
+    | 4 => some .nop      -- an observation (print + getters) in the middle of the history
     | _ => none
   | _ => none
 
